@@ -101,11 +101,16 @@ fn check_shuffle(s: u64, len: usize, buf: &mut Vec<usize>) -> Option<(String, St
 /// shuffle on a vector with repeated entries (labels, bootstrap indices, a constant vector): the
 /// result must hold the same multiset of elements and the call must not panic.
 fn check_shuffle_repeats(s: u64, len: usize) -> Option<(String, String)> {
-    for kind in 0..3usize {
+    for kind in 0..6usize {
+        // kinds 3..5: entries of any magnitude (hashes, identifiers, usize::MAX as a marker):
+        // the elements are opaque to a shuffle
         let input: Vec<usize> = (0..len).map(|i| match kind {
             0 => i % 3,
             1 => 7,
-            _ => (i * i) % (len / 2 + 1),
+            2 => (i * i) % (len / 2 + 1),
+            3 => crate::rng::fnv(&format!("{}:{}", s, i)) as usize,
+            4 => usize::MAX - (i % 5),
+            _ => 1usize << (i % 64),
         }).collect();
         let mut v = input.clone();
         let r = guard(|| {
@@ -199,7 +204,7 @@ impl Monitor for C18 {
         }
     }
     fn rule(&self) -> &'static str {
-        "states_*: one case per chunk of seeds s; create(s) + one draw visits generator state 48271*s mod m (a bijection on [1,m-1]); per state: generate() over a 12-pair (min,max) panel (incl. two intervals whose width overflows f32) must be finite and in [min,max], shuffle(len 1) and shuffle(len 2..6) must return a permutation without panicking, states whose unit draw is >= 0.999999 are swept over every len 1..200; distinct = number of distinct states visited. seeds: seed classes (0, 1, small, around m, multiples of m, 2^32, >3.8e14, u64::MAX, timestamps) x lengths 0..200: no panic, permutation (index vectors; vectors with repeated entries: same multiset), purity (same seed twice; same seed while a second generator draws and shuffles in between). clock: Tensor::random's possible clock seeds (subsec_micros in [0,1e6)) replayed through Generator for 256 draws. tensor_random: Tensor::random itself for every rank; every third request follows a request for a shape the library refuses (rank 5 / nested), which must not disturb it."
+        "states_*: one case per chunk of seeds s; create(s) + one draw visits generator state 48271*s mod m (a bijection on [1,m-1]); per state: generate() over a 12-pair (min,max) panel (incl. two intervals whose width overflows f32) must be finite and in [min,max], shuffle(len 1) and shuffle(len 2..6) must return a permutation without panicking, states whose unit draw is >= 0.999999 are swept over every len 1..200; distinct = number of distinct states visited. seeds: seed classes (0, 1, small, around m, multiples of m, 2^32, >3.8e14, u64::MAX, timestamps) x lengths 0..200: no panic, permutation (index vectors; vectors with repeated entries and vectors with entries of any magnitude - 64-bit hashes, usize::MAX - k, powers of two up to 2^63: same multiset), purity (same seed twice; same seed while a second generator draws and shuffles in between). clock: Tensor::random's possible clock seeds (subsec_micros in [0,1e6)) replayed through Generator for 256 draws. tensor_random: Tensor::random itself for every rank; every third request follows a request for a shape the library refuses (rank 5 / nested), which must not disturb it."
     }
     fn assumptions(&self) -> Vec<&'static str> {
         vec![
@@ -256,7 +261,7 @@ impl Monitor for C18 {
                         }
                     }
                 }
-                out.count("shuffles_of_vectors_with_repeated_entries", 33);
+                out.count("shuffles_of_vectors_with_repeated_or_large_entries", 66);
                 let pure = guard(|| {
                     let mut a = Generator::create(s);
                     let mut b = Generator::create(s);
